@@ -19,7 +19,7 @@
 import VrlModel.Value
 import VrlModel.F64
 import VrlModel.F32
-import VrlModel.Utf8
+import VrlModel.Utf8Lossy
 
 namespace Proto
 
@@ -107,7 +107,7 @@ def Field.entryValue (f : Field) : Field := { name := [118, 97, 108, 117, 101], 
 
 /-- `descriptor.values().find(|v| v.name().eq_ignore_ascii_case(s))` -/
 def EnumDesc.byNameCI (e : EnumDesc) (s : List Nat) : Option Int :=
-  (e.values.find? (fun p => Utf8.eqIgnoreAsciiCase p.1 s)).map (·.2)
+  (e.values.find? (fun p => Utf8L.eqIgnoreAsciiCase p.1 s)).map (·.2)
 
 /-- `get_value(number)` (unspecified among aliases; the model takes the first). -/
 def EnumDesc.byNumber (e : EnumDesc) (n : Int) : Option (List Nat) :=
@@ -168,7 +168,7 @@ def parseBool (s : List Nat) : Option Bool :=
     match parseInt true inI64 s with
     | some n => some (n != 0)
     | none =>
-      let l := s.map Utf8.lowerAscii
+      let l := s.map Utf8L.lowerAscii
       if t.contains l then some true else if f.contains l then some false else none
 
 /-! ### abstract wire values (`prost_reflect::Value`, `MapKey`, `DynamicMessage`) -/
@@ -285,13 +285,13 @@ def showMapKey : MapKey → List Nat
 def convScalar (P : Prims) (lossy : Bool) : Value → Scalar → Option PValue
   | .bool b, .bool => some (.bool b)
   | .int i, .bool => some (.bool (i != 0))
-  | .bytes b, .bool => (parseBool (Utf8.lossy b)).map .bool
+  | .bytes b, .bool => (parseBool (Utf8L.lossy b)).map .bool
   | .bytes b, .bytes => some (.bytes b)
-  | .bytes b, .string => some (.string (Utf8.lossy b))
+  | .bytes b, .string => some (.string (Utf8L.lossy b))
   | .float f, .double => some (.f64 f)
   | .float f, .float => some (.f32 (F32.ofF64 f))
-  | .bytes b, .double => (P.parseF64 (Utf8.lossy b)).map .f64
-  | .bytes b, .float => (P.parseF32 (Utf8.lossy b)).map .f32
+  | .bytes b, .double => (P.parseF64 (Utf8L.lossy b)).map .f64
+  | .bytes b, .float => (P.parseF32 (Utf8L.lossy b)).map .f32
   | .int i, .double => some (.f64 (F64.ofInt i))
   | .int i, .float => some (.f32 (F32.ofInt i))
   | .regex r, .string => some (.string r)
@@ -310,10 +310,10 @@ def convScalar (P : Prims) (lossy : Bool) : Value → Scalar → Option PValue
     | _ => none
   | .bytes b, s =>
     match s.carrier with
-    | .i32 => (parseInt true inI32 (Utf8.lossy b)).map .i32
-    | .i64 => (parseInt true inI64 (Utf8.lossy b)).map .i64
-    | .u32 => (parseInt false inU32 (Utf8.lossy b)).map .u32
-    | .u64 => (parseInt false inU64 (Utf8.lossy b)).map .u64
+    | .i32 => (parseInt true inI32 (Utf8L.lossy b)).map .i32
+    | .i64 => (parseInt true inI64 (Utf8L.lossy b)).map .i64
+    | .u32 => (parseInt false inU32 (Utf8L.lossy b)).map .u32
+    | .u64 => (parseInt false inU64 (Utf8L.lossy b)).map .u64
     | _ => none
   | _, _ => none
 
@@ -417,7 +417,7 @@ mutual
       | none => none
     | ⟨_, _, .enum e, _⟩, .bytes b =>
       match pool.enum e with
-      | some ed => (ed.byNameCI (Utf8.lossy b)).map .enumNumber
+      | some ed => (ed.byNameCI (Utf8L.lossy b)).map .enumNumber
       | none => none
     | ⟨_, _, .enum _, _⟩, .int i => some (.enumNumber (wrapI32 i))
     | ⟨_, _, .scalar s, _⟩, v => convScalar P lossy v s
